@@ -131,17 +131,17 @@ fn add<S: Subject>(jobs: &mut Vec<Box<dyn JobT>>, q: u64, t: u64) {
 
 pub fn property() -> Property {
     let mut jobs: Vec<Box<dyn JobT>> = Vec::new();
-    add::<SOrswot>(&mut jobs, 4000, 150_000);
-    add::<MapOrswot>(&mut jobs, 4000, 150_000);
-    add::<MapMVReg>(&mut jobs, 4000, 150_000);
-    add::<MapMapMVReg>(&mut jobs, 2000, 60_000);
+    add::<SOrswot>(&mut jobs, 8000, 150_000);
+    add::<MapOrswot>(&mut jobs, 8000, 150_000);
+    add::<MapMVReg>(&mut jobs, 8000, 150_000);
+    add::<MapMapMVReg>(&mut jobs, 4000, 60_000);
     {
         // LWWReg: correct use (unique markers) is always accepted in both directions
         let w = Weights { edit: 42, deliver: 26, redeliver: 4, merge: 14, snapshot: 8, merge_snapshot: 6, save_restore: 0, probe: 0 };
         let pc = PlanCfg::new(w).steps(5, 22).editors(2, 4);
-        jobs.push(mk_job("LWWReg<u16,u64>/correct use", 3000, 60_000, pc, Ctx::new(Disc::Any), correct::<SLww>).boxed());
+        jobs.push(mk_job("LWWReg<u16,u64>/correct use", 6000, 60_000, pc, Ctx::new(Disc::Any), correct::<SLww>).boxed());
     }
-    jobs.push(super::c11::lww_flag_job(10_000, 200_000));
+    jobs.push(super::c11::lww_flag_job(20000, 200_000));
     Property {
         id: "C17",
         rule: "(correct use) Plans as in C02 on Orswot, Map<u8,Orswot>, Map<u8,MVReg>, Map<u8,Map<u8,MVReg>>, LWWReg; after every step validate_merge is called in BOTH directions on every pair of current replica states and remembered snapshots: must be Ok and direction-independent. (misuse) the same Plans with replica r1 deliberately using r0's actor: whenever the reads show one dot as the current witness (contains(m).rm_clock / get(k).rm_clock) of two different members/keys across the two states, validate_merge must return an error; the verdict must be direction-independent; LWWReg: conflict iff equal marker and different value (dedicated colliding-marker job). Non-trivial = correct-use pair with overlapping but different knowledge in a history with a remove that observed a remote update / misuse pair where a double-spent dot is still a current witness on both sides; distinct = distinct Plan hash.".into(),
